@@ -172,6 +172,8 @@ def run(ctx):
               key="dispatch carries new_vars", node=st, rel="decorators/state.py")
     ctx.check("active_vars = State.notify_var_get(self.state_active_ident, new_vars)" in norm(tw) and "self.active_expr.eval(active_vars)" in norm(tw), "R07.6", "trigger.py::TrigInfo.trigger_watch",
               "legacy: evaluated on the notification's new_vars", msg="legacy trigger_watch no longer evaluates @state_active on the notification's new_vars", key="legacy state_active inputs", node=tw, rel="trigger.py")
+    ctx.rule("R07.8", "@state_active lets an occurrence through exactly when its expression is truthy (Python truth of any value, not only the bool False), in both subsystems", floor=18)
+    guard_truth_table(ctx, program, "R07.8")
     return (
         "Static, source-only: timer_active_check is abstractly interpreted for 113 spec lists x 5 instants with parse_date_time/croniter summarised by abstract instants; results are "
         "compared with the reference predicate.  TimeActiveDecorator.handle_dispatch is interpreted with timer_active_check inlined for mixed lists and for hold_off thresholds.  "
@@ -203,3 +205,57 @@ def _run_dispatch(program, uid, specs, now, last=0.0, hold=0.0, mono=1000.0):
     heap["data.func_args"] = DictV(())
     out = run_flow(program, uid, pol, args={"self": ObjV("self", "TimeActiveDecorator"), "data": data}, heap=heap)
     return sorted({repr(c.env.get("$ret")) for c in out.get("return")} | {f"raise {getattr(c.env.get('$exc'), 'cls', '?')}" for c in out.get("raise")})
+
+
+GUARD_VALUES = [Const(True), Const(False), Const(0), Const(1), Const(""), Const("on"), Const(None), Const(0.0), ListV((), "list")]
+
+
+def guard_truth_table(ctx, program, rid):
+    """@state_active decision table over expression values, new subsystem (dispatch + handle_dispatch) and legacy loop iteration."""
+    uid = "decorator.py::FunctionDecoratorManager.dispatch"
+    f = program.func(uid)
+    for v in GUARD_VALUES:
+        truthy = bool(v.v) if isinstance(v, Const) else len(v.items) > 0
+        pol = FlowPolicy(program, may_raise_all=False, cancel=False, events=["Function.create_task"],
+                         inline={"StateActiveDecorator.handle_dispatch", "ExpressionDecorator.check_expression_vars", "ExpressionDecorator.has_expression", "dec.handle_dispatch",
+                                 "self.check_expression_vars", "self.has_expression"},
+                         summaries={"self.get_decorators": lambda i, n, a, k, c, o: [(c, ListV((ObjV("sa", "StateActiveDecorator"),), "list"))],
+                                    "self._ast_expression.eval": lambda i, n, a, k, c, o, v=v: [(c, v)],
+                                    "State.notify_var_get": lambda i, n, a, k, c, o: [(c, DictV([]))]})
+        heap = {"sa._ast_expression": ObjV("expr", "AstEval"), "sa.var_names": ListV((), "set"), "self.name": Const("f")}
+        out = run_flow(program, uid, pol, args={"self": ObjV("self", "FunctionDecoratorManager"), "data": ObjV("data", "DispatchData")}, heap=heap)
+        runs = {sum(1 for e in c.trace if e[0] == "call" and e[1] == "Function.create_task") for kind, c, desc in exits(out)}
+        want = {1 if truthy else 0}
+        ctx.check(runs == want, rid, uid, f"new subsystem: @state_active expression value {v!r}",
+                  msg=f"new subsystem: a @state_active expression evaluating to {v!r} starts {sorted(runs)} run(s), specified {sorted(want)} (the legacy loop tests `not trig_ok`)",
+                  key=f"new state_active value {v!r}", node=f, rel="decorator.py")
+    uid = "trigger.py::TrigInfo.trigger_watch"
+    f = program.func(uid)
+    for v in GUARD_VALUES:
+        truthy = bool(v.v) if isinstance(v, Const) else len(v.items) > 0
+        note = ListV([Const("state"), ListV([DictV([(Const("d.e"), Sym(("newval",)))]), DictV([(Const("var_name"), Const("d.e"))])])], "tuple")
+
+        def qget(interp, node, args, kwargs, cfg, out, note=note):
+            seen = cfg.heap.get("$got", Const(0)).v
+            if seen >= 1:
+                out.add("raise", cfg.set("$exc", ExcV("CancelledError", "end of scenario")))
+                return []
+            return [(cfg.hset("$got", Const(seen + 1)), note)]
+
+        summ = {"self.notify_q.get": qget, "ident_any_values_changed": lambda i, n, a, k, c, o: [(c, Const(True))],
+                "ident_values_changed": lambda i, n, a, k, c, o: [(c, Const(True))], "State.notify_add": lambda i, n, a, k, c, o: [(c, Const(True))],
+                "dt_now": lambda i, n, a, k, c, o: [(c, Sym(("now",)))], "self.active_expr.eval": lambda i, n, a, k, c, o, v=v: [(c, v)],
+                "self.active_expr.get_names": lambda i, n, a, k, c, o: [(c, ListV((), "set"))], "State.notify_var_get": lambda i, n, a, k, c, o: [(c, DictV([]))]}
+        pol = FlowPolicy(program, events=["self.call_action"], may_raise_all=False, cancel=False, summaries=summ)
+        pol.loop_unroll = 3
+        heap = {"self.state_trigger": ListV([Const("x")]), "self.state_user_watch": NONE, "self.state_trig_eval": NONE,
+                "self.state_trig_ident_any": ListV((), "set"), "self.active_expr": ObjV("aexpr", "AstEval"), "self.event_trigger": NONE, "self.mqtt_trigger": NONE, "self.webhook_trigger": NONE,
+                "self.state_check_now": Const(False), "self.state_hold_false": NONE, "self.state_hold": NONE, "self.run_on_startup": Const(False), "self.time_trigger": NONE,
+                "self.have_trigger": Const(True), "self.time_active": NONE, "self.time_active_hold_off": NONE, "self.notify_q": ObjV("q", "Queue"),
+                "self.state_trigger_kwargs": DictV(()), "self.name": Const("file.x.f"), "self.state_active_ident": ListV((), "set")}
+        out = run_flow(program, uid, pol, args={"self": ObjV("self", "TrigInfo")}, heap=heap)
+        runs = {sum(1 for e in c.trace if e[0] == "call" and e[1] == "self.call_action") for kind, c, desc in exits(out)}
+        want = {1 if truthy else 0}
+        ctx.check(runs == want, rid, uid, f"legacy: @state_active expression value {v!r}",
+                  msg=f"legacy loop: a @state_active expression evaluating to {v!r} starts {sorted(runs)} run(s), specified {sorted(want)}",
+                  key=f"legacy state_active value {v!r}", node=f, rel="trigger.py")
